@@ -116,3 +116,8 @@ claim("C23",
       "exhaustive enumeration of short I/O write sequences and of every store instruction form aimed at SB on the real Mapper/CPU, plus monitored whole-ROM transcripts",
       "(a) every sequence of up to 4 (thorough 5) Mapper writes over 11 events (SB with four values, SC, JOYP, DIV, IF, WRAM, FF03), with a recording writer and with none, with and without machine cycles in between: after every write the transcript must equal the SB writes so far and SB/SC must read FF; (b) every executable opcode with BC, DE, HL, SP-2, FF00+n, FF00+C and nn aimed at FF00, FF01, FF02 and FEFF (3 accumulator values, 2 flag sets): the delivered bytes must equal exactly the reference CPU's writes to FF01; (c) 14 blargg ROMs: the transcript equals the SB stores decoded by a per-instruction monitor.",
       "Trusted: ref/sm83.go write log. The Config.SerialWriter wiring of gameboy.New is covered by C26's twin comparison.")
+
+claim("C20",
+      "exhaustive per-cycle observation of the sample channels over long runs from several phases, and exhaustive enumeration of routing/volume configurations with paired runs, on the real APU",
+      "Pacing: the left/right channels are drained after every machine cycle for 2.3 million cycles from power-on and from 8 further phases (with a sound power cycle there); per cycle at most one left and one right sample, always together, and a single phase must place sample k in cycle floor((phi+95k)/4) for every k of the run; no sample with sound off or without outputs. Routing: NR51 (all 256) x playing-channel subsets (16) x NR50 values: a side with no playing channel routed to it is exactly 0, every sample is finite and in [0,1), and altering only a channel that is not routed to a side leaves that side's sample sequence identical (paired runs). Range: channel volumes 0-15 (three channels) x wave level x NR50 with everything routed.",
+      "Samples are observed on the channels handed to audio.New; the speakers wiring of gameboy.New is covered by C26. Quick tier enumerates 1/8 of the NR51 x subset x NR50 product for the non-default NR50 values and 1/3 of the volume cube; the thorough tier enumerates them completely.")
